@@ -203,6 +203,8 @@ void group_destroy(Group *g)
 #include <new>
 #include <stdint.h>
 
+#include <string.h>
+
 #include "tbb/scalable_allocator.h"
 namespace {
 struct AlignedHeader
@@ -246,5 +248,44 @@ size_t scalable_msize(void *ptr)
     return 0;
   AlignedHeader *h = (AlignedHeader *)ptr - 1;
   return h->magic == ALIGNED_MAGIC ? h->size : 0;
+}
+// like malloc: suitably aligned for the fundamental types that fit (8 bytes for blocks of up to 8 bytes, else 16) - not more
+void *scalable_malloc(size_t size) { return scalable_aligned_malloc(size, size <= 8 ? 8 : 16); }
+void scalable_free(void *ptr) { scalable_aligned_free(ptr); }
+void *scalable_calloc(size_t nobj, size_t size)
+{
+  if (size && nobj > (size_t)-1 / size)
+    return nullptr;
+  void *p = scalable_malloc(nobj * size);
+  if (p)
+    memset(p, 0, nobj * size);
+  return p;
+}
+void *scalable_aligned_realloc(void *ptr, size_t size, size_t alignment)
+{
+  if (!ptr)
+    return scalable_aligned_malloc(size, alignment);
+  if (!size) {
+    scalable_aligned_free(ptr);
+    return nullptr;
+  }
+  void *q = scalable_aligned_malloc(size, alignment);
+  if (!q)
+    return nullptr;
+  size_t old = scalable_msize(ptr);
+  memcpy(q, ptr, old < size ? old : size);
+  scalable_aligned_free(ptr);
+  return q;
+}
+void *scalable_realloc(void *ptr, size_t size) { return scalable_aligned_realloc(ptr, size, 16); }
+int scalable_posix_memalign(void **memptr, size_t alignment, size_t size)
+{
+  if (alignment < sizeof(void *) || (alignment & (alignment - 1)))
+    return 22;  // EINVAL
+  void *p = scalable_aligned_malloc(size, alignment);
+  if (!p)
+    return 12;  // ENOMEM
+  *memptr = p;
+  return 0;
 }
 }
